@@ -273,6 +273,12 @@ func init() {
 					vv.Class = "lookupfault.trace"
 					return vv
 				}
+				// the same lookup again, through the same storage and handle, now without fault: nothing was learnt
+				// from the failed attempt (no slab remembered as absent, no half-built state), so it is served
+				if err2 := lookup(); err2 != nil {
+					return w.viol("lookupfault.retry", "%s on #%d failed when repeated without fault after its %d-th %s call had failed once: %T (%s) %v", st.Sub, c.CID, k, kind, rawErr, errCategory(rawErr), rawErr)
+				}
+				w.Stats.Inc("lookupfault.retried")
 			}
 		}
 		evict()
